@@ -103,7 +103,7 @@ def build_case(spec):
     fuel = spec.get("fuel", 500)
     case = {"id": spec["id"], "name": spec.get("name", ""), "g": g, "n": spec["n"], "namb": spec.get("namb", -1),
             "expect": spec.get("expect", ""), "fuel": fuel,
-            "terms": spec.get("terms") or terminals_of(g), "gen_exc": ""}
+            "terms": spec.get("terms") or terminals_of(g), "gen_exc": "", "cert": False}
     try:
         parser = real_parser(g)
     except Exception as e:  # noqa: BLE001 - a generator crash is an observation
